@@ -109,7 +109,7 @@ Lemma slice_read_put_ctx H c v s : slice_read (put_ctx H c v) s = slice_read H s
 Proof. reflexivity. Qed.
 
 Ltac obs_simpl :=
-  unfold observe, ctx_params, writer_view, set_route_tsr, lookup_lazy_effect; simpl; upd_simpl; simpl.
+  unfold observe, ctx_params, writer_view, set_route_tsr, lookup_lazy_effect; simpl; upd_simpl; simpl; upd_simpl; simpl.
 
 Lemma serve_view_correct H c w r l f H' b :
   pool_ok H c -> lk_wf l ->
@@ -175,4 +175,202 @@ Proof.
   - destruct (negb (f_connect f) && negb (f_root f) && true); [discriminate | apply Tail].
   - replace (negb (f_connect f) && negb (f_root f) && false) with false by (now rewrite andb_false_r).
     apply Tail.
+Qed.
+
+(* ---------- Router.Lookup / Txn.Lookup ---------- *)
+
+Lemma lookup_view_correct H c w r l H' wv :
+  pool_ok H c -> lk_wf l ->
+  writer_view H w = Ok wv ->
+  lookup_api H c w r l = Ok (H', true) ->
+  observe H' c = Ok (expected (mkEnv (reqs H r) wv (c_fox (ctxs H c)))
+                              (ShLookup (lk_rid l) (if lk_tsr l then lk_tsr_params l else lk_params l)))
+  /\ pool_ok H' c.
+Proof.
+  intros Hp Hwf Hw. pose proof Hp as (sp0 & st0 & Ep & Et & Hne & Hlp & Hlt).
+  unfold lookup_api, resetWithWriter, trunc_params. simpl. rewrite Ep. simpl.
+  set (H1 := put_ctx _ c _).
+  assert (Hp1 : pool_ok H1 c).
+  { exists (mkSlice (s_arr sp0) 0), st0. subst H1. simpl. upd_simpl. simpl. rewrite Et. repeat split; auto. }
+  destruct (lookup_effect_spec H1 c l Hp1) as (H2 & sp0' & sp & st & EL & Ep' & Ec & Rp & Rt & Hne2 & L1 & L2 & Oc & Eh & Eq & Er & En).
+  rewrite EL.
+  subst H1. simpl in *. rewrite upd_same in Ep', Ec. simpl in Ep'. injection Ep' as <-.
+  unfold slice_read in Rp at 2. simpl in Rp.
+  destruct (lk_route l) as [ri|] eqn:Eroute; [|discriminate].
+  intro EQ; injection EQ as <-.
+  unfold writer_view in Hw.
+  destruct (r_under (recs H w)) as [[nu h]|] eqn:Eu; [|discriminate]. injection Hw as <-.
+  split.
+  - obs_simpl. rewrite Ec; simpl. rewrite Er, Eu, Eh, Eq. unfold lk_rid. rewrite Eroute.
+    destruct (lk_tsr l) eqn:Etsr; simpl.
+    + destruct (Hwf Etsr) as (tp & Etp). rewrite slice_read_put_ctx, (Rt tp Etp).
+      unfold lk_tsr_params. rewrite Etp. reflexivity.
+    + rewrite slice_read_put_ctx, Rp. reflexivity.
+  - exists sp, st. obs_simpl. rewrite Ec; simpl. repeat split; auto.
+Qed.
+
+(* ---------- CloneWith ---------- *)
+
+Definition ctx_arrs (x : ctx) : list addr :=
+  match c_params x with Some s => [s_arr s] | None => [] end ++
+  match c_tsrp x with Some s => [s_arr s] | None => [] end.
+
+(* the object the pool hands to CloneWith shares no backing array with the parent *)
+Definition sep (H : heap) (c cp : addr) : Prop :=
+  cp <> c /\
+  (forall a, In a (ctx_arrs (ctxs H c)) -> ~ In a (ctx_arrs (ctxs H cp)) /\ (a < next H)%nat).
+
+Lemma clone_with_view_correct H c cp w r H' pv wv :
+  observe H c = Ok pv ->
+  pool_ok H cp -> sep H c cp ->
+  c_fox (ctxs H cp) = c_fox (ctxs H c) ->
+  writer_view H w = Ok wv ->
+  clone_with H c cp w r = Ok H' ->
+  observe H' cp = Ok (expected_clone_with pv (reqs H r) wv) /\ observe H' c = Ok pv.
+Proof.
+  intros Hobs Hp [Hcc Hsep] Hfox Hw.
+  pose proof Hp as (dp & dt & Ep & Et & Hne & Hlp & Hlt).
+  unfold clone_with. destruct (c_tree (ctxs H c)); [|discriminate].
+  unfold writer_view in Hw.
+  destruct (r_under (recs H w)) as [[nu h]|] eqn:Eu; [|discriminate]. injection Hw as <-.
+  unfold observe, ctx_params in Hobs.
+  destruct (c_tsr (ctxs H c)) eqn:Etsr; simpl.
+  - (* tsr: tsrParams are copied *)
+    rewrite Et.
+    destruct (c_tsrp (ctxs H c)) as [s|] eqn:Es; [|discriminate]. simpl in Hobs.
+    destruct (copy_with_resize (bump H 1) dt s (next H)) as [H1 d'] eqn:EC.
+    apply copy_with_resize_spec in EC.
+    destruct EC as (R & A & F & Eh & Eq & Er & Ec & En).
+    intro EQ; injection EQ as <-.
+    assert (Hs : ~ In (s_arr s) (ctx_arrs (ctxs H cp)) /\ (s_arr s < next H)%nat).
+    { apply Hsep. unfold ctx_arrs. rewrite Es. apply in_or_app. right. now left. }
+    destruct Hs as [Hs1 Hs2].
+    assert (Hsd : s_arr s <> s_arr dt).
+    { intro E. apply Hs1. unfold ctx_arrs. rewrite Et. apply in_or_app. right. left. now rewrite E. }
+    split.
+    + destruct (c_req (ctxs H c)) as [r0|]; [|discriminate].
+      destruct (c_w (ctxs H c)) as [[nu0 w0]|]; [|discriminate].
+      unfold writer_view in Hobs. destruct (r_under (recs H w0)) as [[nu1 h1]|]; [|discriminate].
+      injection Hobs as <-.
+      obs_simpl. rewrite Er, Eh, Eq. simpl. rewrite Eu. simpl.
+      rewrite slice_read_put_ctx, R. unfold expected_clone_with. simpl. rewrite Hfox. reflexivity.
+    + obs_simpl. rewrite Ec. simpl. upd_simpl. rewrite Etsr, Es. simpl.
+      rewrite slice_read_put_ctx.
+      rewrite (slice_read_ext (bump H 1) H1) by (apply F; [exact Hsd | lia]).
+      rewrite Er, Eh, Eq. exact Hobs.
+  - (* no tsr: params are copied *)
+    rewrite Ep.
+    destruct (c_params (ctxs H c)) as [s|] eqn:Es; [|discriminate]. simpl in Hobs.
+    destruct (copy_with_resize (bump H 1) dp s (next H)) as [H1 d'] eqn:EC.
+    apply copy_with_resize_spec in EC.
+    destruct EC as (R & A & F & Eh & Eq & Er & Ec & En).
+    intro EQ; injection EQ as <-.
+    assert (Hs : ~ In (s_arr s) (ctx_arrs (ctxs H cp)) /\ (s_arr s < next H)%nat).
+    { apply Hsep. unfold ctx_arrs. rewrite Es. apply in_or_app. left. now left. }
+    destruct Hs as [Hs1 Hs2].
+    assert (Hsd : s_arr s <> s_arr dp).
+    { intro E. apply Hs1. unfold ctx_arrs. rewrite Ep. apply in_or_app. left. left. now rewrite E. }
+    split.
+    + destruct (c_req (ctxs H c)) as [r0|]; [|discriminate].
+      destruct (c_w (ctxs H c)) as [[nu0 w0]|]; [|discriminate].
+      unfold writer_view in Hobs. destruct (r_under (recs H w0)) as [[nu1 h1]|]; [|discriminate].
+      injection Hobs as <-.
+      obs_simpl. rewrite Er, Eh, Eq. simpl. rewrite Eu. simpl.
+      rewrite slice_read_put_ctx, R. unfold expected_clone_with. simpl. rewrite Hfox. reflexivity.
+    + obs_simpl. rewrite Ec. simpl. upd_simpl. rewrite Etsr, Es. simpl.
+      rewrite slice_read_put_ctx.
+      rewrite (slice_read_ext (bump H 1) H1) by (apply F; [exact Hsd | lia]).
+      rewrite Er, Eh, Eq. exact Hobs.
+Qed.
+
+(* ---------- Clone ---------- *)
+
+(* the cached query, if any, is the parsed query of the request in place
+   (true after every reset; kept by every handler action of the model) *)
+Definition query_coherent (H : heap) (c : addr) : Prop :=
+  match c_cq (ctxs H c), c_req (ctxs H c) with
+  | Some q, Some r => q = q_query (reqs H r)
+  | _, _ => True
+  end.
+
+Lemma size_getter_snapshot rw :
+  let sz := if rec_written rw then rec_size_getter rw else notWritten in
+  (if sz <? 0 then 0 else sz)%Z = rec_size_getter rw /\ negb (sz =? notWritten)%Z = rec_written rw.
+Proof.
+  unfold rec_written, rec_size_getter, notWritten. simpl.
+  destruct (Z.eqb_spec (r_size rw) (-1)) as [E|E]; simpl.
+  - rewrite E. simpl. split; reflexivity.
+  - destruct (Z.ltb_spec (r_size rw) 0) as [L|L]; simpl.
+    + split; reflexivity.
+    + destruct (Z.ltb_spec (r_size rw) 0); [lia|].
+      destruct (Z.eqb_spec (r_size rw) (-1)); [lia|]. split; reflexivity.
+Qed.
+
+(* frame of an allocation-only operation: nothing below the old counter changes *)
+Definition frame_below (n : addr) (H H' : heap) : Prop :=
+  forall a, (a < n)%nat ->
+    arrs H' a = arrs H a /\ hdrs H' a = hdrs H a /\ reqs H' a = reqs H a /\
+    recs H' a = recs H a /\ ctxs H' a = ctxs H a.
+
+Lemma clone_view_correct (fx : bool) H c pv nu w :
+  observe H c = Ok pv -> query_coherent H c ->
+  c_w (ctxs H c) = Some (nu, w) ->
+  (if fx then nu = true -> wv_hij (v_w pv) = false else nu = false /\ w = c_rec (ctxs H c)) ->
+  exists H', clone_gen fx H c = Ok (H', (next H + 4)%nat) /\
+             observe H' (next H + 4)%nat = Ok pv /\
+             next H' = (next H + 5)%nat /\ frame_below (next H) H H'.
+Proof.
+  intros Hobs Hq Ew Hfx.
+  unfold observe, ctx_params in Hobs. unfold query_coherent in Hq.
+  unfold clone_gen. rewrite Ew in *.
+  destruct (c_req (ctxs H c)) as [r|] eqn:Er.
+  2:{ destruct (c_tsr (ctxs H c)); [destruct (c_tsrp (ctxs H c))|destruct (c_params (ctxs H c))]; discriminate. }
+  assert (Hrw : exists nu' h, r_under (recs H w) = Some (nu', h)).
+  { destruct (c_tsr (ctxs H c)); [destruct (c_tsrp (ctxs H c))|destruct (c_params (ctxs H c))]; try discriminate;
+      simpl in Hobs; unfold writer_view in Hobs; destruct (r_under (recs H w)) as [[nu' h]|]; try discriminate; eauto. }
+  destruct Hrw as (nu' & h & Eu).
+  assert (Hframe : forall (m : heap), True) by auto.
+  replace (next H + 4)%nat with (S (S (S (S (next H))))) by lia.
+  destruct fx.
+  - (* after 036e194: snapshot of the writer in use *)
+    simpl. upd_simpl. rewrite Eu. simpl.
+    destruct (c_tsr (ctxs H c)) eqn:Etsr; simpl.
+    + destruct (c_tsrp (ctxs H c)) as [s|] eqn:Es; [|discriminate]. simpl in Hobs |- *.
+      unfold writer_view in Hobs. rewrite Eu in Hobs. injection Hobs as <-.
+      eexists. split; [reflexivity|]. split; [|split; [simpl; lia|]].
+      * obs_simpl. rewrite Etsr. simpl. unfold slice_read at 1. simpl. upd_simpl. simpl.
+        fold (slice_read H s). unfold slice_read at 1. rewrite firstn_firstn, Nat.min_id. fold (slice_read H s).
+        pose proof (size_getter_snapshot (recs H w)) as [S1 S2]. simpl in S1, S2.
+        unfold rec_size_getter at 1, rec_written at 1. simpl. rewrite S1, S2.
+        destruct (c_cq (ctxs H c)) as [q|]; [rewrite Hq|]; simpl;
+          (destruct nu; [simpl in Hfx; rewrite Hfx by reflexivity|]; reflexivity).
+      * intros a Ha. simpl. upd_simpl. repeat split; reflexivity.
+    + destruct (c_params (ctxs H c)) as [s|] eqn:Es; [|discriminate]. simpl in Hobs |- *.
+      unfold writer_view in Hobs. rewrite Eu in Hobs. injection Hobs as <-.
+      eexists. split; [reflexivity|]. split; [|split; [simpl; lia|]].
+      * obs_simpl. rewrite Etsr. simpl. unfold slice_read at 1. simpl. upd_simpl. simpl.
+        fold (slice_read H s). unfold slice_read at 1. rewrite firstn_firstn, Nat.min_id. fold (slice_read H s).
+        pose proof (size_getter_snapshot (recs H w)) as [S1 S2]. simpl in S1, S2.
+        unfold rec_size_getter at 1, rec_written at 1. simpl. rewrite S1, S2.
+        destruct (c_cq (ctxs H c)) as [q|]; [rewrite Hq|]; simpl;
+          (destruct nu; [simpl in Hfx; rewrite Hfx by reflexivity|]; reflexivity).
+      * intros a Ha. simpl. upd_simpl. repeat split; reflexivity.
+  - (* before 036e194: copy of the embedded recorder; right only when that is the writer in use *)
+    destruct Hfx as [-> ->].
+    simpl. upd_simpl. rewrite Eu. simpl.
+    destruct (c_tsr (ctxs H c)) eqn:Etsr; simpl.
+    + destruct (c_tsrp (ctxs H c)) as [s|] eqn:Es; [|discriminate]. simpl in Hobs |- *.
+      unfold writer_view in Hobs. rewrite Eu in Hobs. injection Hobs as <-.
+      eexists. split; [reflexivity|]. split; [|split; [simpl; lia|]].
+      * obs_simpl. rewrite Etsr. simpl. unfold slice_read at 1. simpl. upd_simpl. simpl.
+        fold (slice_read H s). unfold slice_read at 1. rewrite firstn_firstn, Nat.min_id. fold (slice_read H s).
+        destruct (c_cq (ctxs H c)) as [q|]; [rewrite Hq|]; reflexivity.
+      * intros a Ha. simpl. upd_simpl. repeat split; reflexivity.
+    + destruct (c_params (ctxs H c)) as [s|] eqn:Es; [|discriminate]. simpl in Hobs |- *.
+      unfold writer_view in Hobs. rewrite Eu in Hobs. injection Hobs as <-.
+      eexists. split; [reflexivity|]. split; [|split; [simpl; lia|]].
+      * obs_simpl. rewrite Etsr. simpl. unfold slice_read at 1. simpl. upd_simpl. simpl.
+        fold (slice_read H s). unfold slice_read at 1. rewrite firstn_firstn, Nat.min_id. fold (slice_read H s).
+        destruct (c_cq (ctxs H c)) as [q|]; [rewrite Hq|]; reflexivity.
+      * intros a Ha. simpl. upd_simpl. repeat split; reflexivity.
 Qed.
